@@ -83,8 +83,8 @@ def defRead (σ : Store) (dtok : String) : Store × String :=
     Option set 14 = an Override that rewrites in place every list of every node it is handed (stores the sentinel), 15 = the caller
     does the same to the returned document.  The model: `ConvOpts.convertO` with `copy = examplesCopy`. -/
 
-/-- `applyMeta` as it stands: `jsonSchema.Examples = meta.Examples` (no clone). pending/C12-examples-clone.diff makes it `true`. -/
-def examplesCopy : Bool := false
+/-- `applyMeta`: `jsonSchema.Examples = slices.Clone(meta.Examples)` (/repo 8997831; before: the registry entry's own list). -/
+def examplesCopy : Bool := true
 
 structure WItem where
   j : Nat
